@@ -53,6 +53,8 @@ func progOptsFor(seed uint64) progOpts {
 		goroutines: r.chance(1, 7),
 		cleanups:   r.chance(1, 4),
 		customFail: r.chance(1, 3),
+		// one Skip statement after the failure steps, reached by failing (non-fatal) and non-failing cases alike
+		skipAfter: r.chance(1, 5),
 	}
 }
 
